@@ -244,7 +244,10 @@ class _NlRequestSocket:
         self.reply = b''
 
     def send(self, data):
-        self.reply = self.ep.kernel.request(bytes(data))
+        # the kernel addresses its reply to the port ID of the requesting *socket* (not to nlmsg_pid of the request):
+        # the first netlink socket of a process is auto-bound to its pid, any further one to a value of the kernel's own
+        portid = 4242 if not getattr(self.ep, 'nl_event_open', False) else 0xFC1D5D66
+        self.reply = self.ep.kernel.request(bytes(data), portid)
         return len(data)
 
     def recv(self, n):
@@ -259,12 +262,13 @@ class _NlEventSocket:
 
     def __init__(self, ep):
         self.ep = ep
+        ep.nl_event_open = True
 
     def recv(self, n):
         return self.ep.kernel_events.pop(0)
 
     def close(self):
-        pass
+        self.ep.nl_event_open = False
 
 
 def _get_socket(cls, bind_groups):
